@@ -150,7 +150,7 @@ def key_for(name, line):
 def explore(ctx, tag, race_bin):
     q = ctx.tier == "quick"
     souts, sst, nsched, rd1 = schedules(ctx, tag, race_bin)
-    touts, tst, rd2 = stress(ctx, tag, race_bin, *((4, 8, 1) if q else (12, 16, 3)))
+    touts, tst, rd2 = stress(ctx, tag, race_bin, *((6, 8, 1) if q else (12, 16, 3)))
     viols, drift, nlines = validate(ctx, souts + touts)
     races = parse_races(sorted(glob.glob(rd1 + "/*") + glob.glob(rd2 + "/*")))
     by_key = {}
@@ -202,9 +202,11 @@ def run(ctx):
                states=ctx.states, transitions=ctx.transitions, model_states=mc.distinct, negative_runs=neg,
                schedules_replayed=st["schedules"], concurrent_sessions=sessions, session_operations_compared=ops,
                race_reports=st["races"], spec_drift=st["drift"], predicate_failures=len(by_key))
-    return ctx.finish("model_checking", cov, exhaustive=dict(
+    cov["traces_validated_against_impl"] = st["schedules"] + sum(1 for s in st["stress_stats"] if s.get("sessions"))
+    cov["exhaustive_scope"] = dict(
         what="FlowCache.tla: every interleaving of the lock protocol (MutualExclusion, WriterExclusive, LoadOnce, Published, SameAsSolo, SameObject, Termination under weak fairness, no deadlock)",
-        bounds="2 goroutines x scripts of 1-2 calls over 6 distinct calls (quick); 3 goroutines x scripts of 1-2 calls over 4 distinct calls (thorough)"),
+        bounds="2 goroutines x scripts of 1-2 calls over 6 distinct calls (quick); 3 goroutines x scripts of 1-2 calls over 4 distinct calls (thorough)")
+    return ctx.finish("model_checking", cov, exhaustive=True,
         assumptions=[
             "flow names are unique ignoring case (A-C09-1): with two flows named alike FindByName depends on what is cached, which TLC shows (negative run duplicate-names) and the property does not cover",
             "the race detector only sees accesses that were executed and only while its shadow history still holds the earlier one; 'no data race anywhere' is exploration, the lock protocol is model-checked",
